@@ -1,7 +1,9 @@
 (* C05 — Generated proxy and stub are mutual inverses (the codec half; that generated Go code
    compiles is a statement about the Go type checker and is decided by building generated
    packages in the harness).  Theorems only; proofs in theories/GenCodec.v. *)
-From QV Require Import Wire Value GenDec WireDefs ReflProofs ParseOpt WireTop GenCodec WireRefute.
+From QV Require Import Wire Value GenDec WireDefs ReflProofs ParseOpt WireTop GenCodec GenSeq WireRefute.
+From Coq Require Import List.
+Import ListNotations.
 Local Open Scope N_scope.
 
 (* arguments: reflection encoder in the proxy, generated Unmarshal per parameter in the stub *)
@@ -22,6 +24,25 @@ Theorem C05_signal_property : forall v t rest, good_ty t = true -> has_ty v t = 
   subscriber_recv t (emit v ++ rest) = ROk (v, rest).
 Proof. exact signal_roundtrip. Qed.
 Print Assumptions C05_signal_property.
+
+(* sequences on one stub / proxy pair (GenSeq.v): a property read returns the payload the property
+   was last given -- through the helper or the proxy -- whatever was done before, and whatever was
+   done since for other properties and signals; the generated getter decodes it to that value *)
+Theorem C05_sequence_get : forall st before w p v after t,
+  (w = SUpdate p v \/ w = SSet p v) ->
+  forallb (fun o => negb (writes_to p o)) after = true ->
+  good_ty t = true -> has_ty v t = true ->
+  last (srun st (before ++ w :: after ++ [SGet p])) None = Some (emit v) /\
+  subscriber_recv t (emit v) = ROk (v, []).
+Proof. exact get_returns_last_write. Qed.
+Print Assumptions C05_sequence_get.
+
+(* ... and every event carries the emitted payload, whatever the object holds *)
+Theorem C05_sequence_event : forall st o v t,
+  payload_of o = Some v -> good_ty t = true -> has_ty v t = true ->
+  snd (sstep st o) = Some (emit v) /\ subscriber_recv t (emit v) = ROk (v, []).
+Proof. exact event_carries_payload. Qed.
+Print Assumptions C05_sequence_event.
 
 Theorem C05_refuted_drop8 :
   exists r, stub_recv [TTuple [TS SI8; TS SI32]] (proxy_send only_drop8 [s8]) = r /\ r <> ROk ([s8], []).
